@@ -2137,7 +2137,9 @@ class Engine:
             # depend on how busy the machine is; the wall-clock timeout is only a safety net far above it
             budget = int(opts.get("_timeout_ms", self.timeout_ms))
             s.set("rlimit", budget * self.RL_PER_MS)
-            s.set("timeout", max(budget * 20, 60000))
+            # short opportunistic attempts also stop at their wall-clock budget (a full attempt follows); full attempts get four times their budget of
+            # wall time, so that a proof needing a few CPU seconds survives a heavily oversubscribed machine
+            s.set("timeout", budget if "_timeout_ms" in opts else budget * 4)
             for k_, v_ in opts.items():
                 if not k_.startswith("_"):
                     s.set(k_, v_)
